@@ -20,6 +20,7 @@ import (
 	"fmt"
 	"os"
 	"os/exec"
+	"sort"
 	"strings"
 
 	"github.com/goplus/llgo/internal/mockable"
@@ -125,16 +126,17 @@ func runInEmulator(emulator string, envMap map[string]string, pkgDir, pkgName st
 // runEmuCmd runs the application in emulator by formatting the emulator command template
 func runEmuCmd(envMap map[string]string, emulatorTemplate string, runArgs []string, verbose bool, printCmds bool) error {
 	// Expand the emulator command template
-	emulatorCmd := emulatorTemplate
-	for placeholder, path := range envMap {
-		var target string
-		if placeholder == "" {
-			target = "{}"
-		} else {
-			target = "{" + placeholder + "}"
-		}
-		emulatorCmd = strings.ReplaceAll(emulatorCmd, target, path)
+	// (single pass: a substituted path is never expanded again, whatever the map order)
+	placeholders := make([]string, 0, len(envMap))
+	for placeholder := range envMap {
+		placeholders = append(placeholders, placeholder)
 	}
+	sort.Strings(placeholders)
+	pairs := make([]string, 0, 2*len(placeholders))
+	for _, placeholder := range placeholders {
+		pairs = append(pairs, "{"+placeholder+"}", envMap[placeholder])
+	}
+	emulatorCmd := strings.NewReplacer(pairs...).Replace(emulatorTemplate)
 
 	if verbose {
 		fmt.Fprintf(os.Stderr, "Running in emulator: %s\n", emulatorCmd)
